@@ -148,6 +148,18 @@ def quote_guards(prog, rep):
         rep.floor(f"{cname}.check quote toggles", n_tog, 2)
 
 
+def _ret_texts(fi, stop=()):
+    """the values a function returns, as expressions over its parameters (locals expanded; names in `stop` kept)"""
+    from ..trace import deep, sym_value
+
+    out = set()
+    for r in walk_own(fi.node):
+        if isinstance(r, ast.Return) and r.value is not None:
+            v = sym_value(fi, r.value) if (r in fi.node.body and not stop) else deep(r.value, fi, stop=stop)
+            out.add(norm(v))
+    return out
+
+
 def loops_rule(prog, rep):
     rep.rule("LOOPS", "QFunction.parse / QList.parse / QDict.parse: every non-raising path through an iteration of the argument / entry loop appends or sets exactly one parsed value; QFunction.interpret evaluates self.args in order after the two injected arguments and calls functions[self.name](*call_args); QList / QDict.interpret map every child")
     for cname, sink in (("QFunction", "args.append"), ("QList", "ls.append"), ("QDict", "d[key]")):
@@ -223,13 +235,16 @@ def loops_rule(prog, rep):
     rep.check(ok, "LOOPS", fi.short, "entry evaluation", "every entry", f"a dict literal does not evaluate to the dict of its values ({md})", fi.loc())
     for cname, expr in (("QInteger", "int(string)"), ("QString", None)):
         fi = prog.func(f"{cname}.interpret")
-        rep.check(norm(fi.node.body[-1]) == "return self.value", "LOOPS", fi.short, "literal value", "self.value", "a literal does not evaluate to itself", fi.loc())
+        rep.check(_ret_texts(fi) == {"self.value"}, "LOOPS", fi.short, "literal value", "self.value", f"a literal does not evaluate to itself (returns {sorted(_ret_texts(fi))})", fi.loc())
     fi = prog.func("QInteger.parse")
-    rep.check(norm(fi.node.body[-1]) == "return QInteger(int(string))", "LOOPS", fi.short, "integer literal", "QInteger(int(string))", "integer literal is not parsed with int()", fi.loc())
+    p0 = fi.params[0]
+    rep.check(_ret_texts(fi) == {f"QInteger(int({p0}))"}, "LOOPS", fi.short, "integer literal", "QInteger(int(string))", f"integer literal is not parsed with int() (returns {sorted(_ret_texts(fi))})", fi.loc())
     fi = prog.func("QString.parse")
-    t = [norm(s) for s in fi.node.body]
-    ok = t == ["quotes_type = string[0]", "string = string.replace('\\\\' + quotes_type, quotes_type)", "string = string[1:-1]", "return QString(string)"]
-    rep.check(ok, "LOOPS", fi.short, "string literal", "unescape own quote, strip the delimiters", f"string literal is decoded as {t}", fi.loc())
+    p0 = fi.params[0]
+    t = _ret_texts(fi)
+    esc = "'\\\\'"
+    want = {f"QString({p0}.replace({esc} + {p0}[0], {p0}[0])[1:-1])"}
+    rep.check(t == want, "LOOPS", fi.short, "string literal", "unescape own quote, strip the delimiters", f"string literal is decoded as {sorted(t)}, not as {sorted(want)}", fi.loc())
 
 
 def assignment_rule(prog, rep):
@@ -286,24 +301,48 @@ def assignment_rule(prog, rep):
             back = [n for n in r if n == head]
             rep.check(not back, "ASSIGN", fi.short, "only empty statements are skipped", "the loop head is reached again without parsing only when the statement is empty", "a non-empty statement can be skipped without being parsed and interpreted", fi.loc(lp))
     rep.check(ok, "ASSIGN", fi.short, "parse then interpret, per statement", "", why, fi.loc())
+    from ..paths import summarize
+    from ..trace import deep, path_value, sym_value
+
     ii = prog.func("interpret", "aw_query.query2")
-    rep.check([norm(s) for s in ii.node.body if not isinstance(s, ast.Expr)] == ["namespace[var.name] = val.interpret(datastore, namespace)"], "ASSIGN", ii.short, "assignment", "namespace[var.name] = val.interpret(...)", "an assignment statement does not bind the variable to the value of its right-hand side", ii.loc())
+    pv, pval, pns, pds = ii.params
+    binds = [s_ for s_ in ii.node.body if isinstance(s_, ast.Assign) and isinstance(s_.targets[0], ast.Subscript) and norm(s_.targets[0].value) == pns]
+    ok = len(binds) == 1 and norm(binds[0].targets[0].slice) == f"{pv}.name" and norm(deep(binds[0].value, ii)) == f"{pval}.interpret({pds}, {pns})" and not [s_ for s_ in ii.node.body if isinstance(s_, (ast.If, ast.For, ast.While, ast.Try, ast.Return))]
+    rep.check(ok, "ASSIGN", ii.short, "assignment", "namespace[var.name] = val.interpret(...)", "an assignment statement does not bind the variable to the value of its right-hand side", ii.loc())
     vp = prog.func("QVariable.parse")
-    t = [norm(s) for s in vp.node.body]
-    ok = t == ["val = None", "if string in namespace: val = namespace[string]", "return QVariable(string, val)"] or ("val = namespace[string]" in norm(vp.node) and "return QVariable(string, val)" in norm(vp.node))
-    rep.check(ok, "ASSIGN", vp.short, "variable lookup", "current namespace value", "a variable reference does not read the namespace", vp.loc())
+    ps_, pn_ = vp.params
+    sums, _g = summarize(vp, env=Env(vp, None, inline_locals=False))
+    ok = bool(sums)
+    seen = set()
+    for sm in sums:
+        present = (f"{ps_} in {pn_}", True) in sm.opaque or (f"{ps_} not in {pn_}", False) in sm.opaque
+        absent = (f"{ps_} in {pn_}", False) in sm.opaque or (f"{ps_} not in {pn_}", True) in sm.opaque
+        r = norm(path_value(sm, sm.ret)) if sm.ret is not None else None
+        if present:
+            ok = ok and r in (f"QVariable({ps_}, {pn_}[{ps_}])", f"QVariable({ps_}, {pn_}.get({ps_}))")
+            seen.add("present")
+        elif absent:
+            ok = ok and r in (f"QVariable({ps_}, None)", f"QVariable({ps_}, {pn_}.get({ps_}))")
+            seen.add("absent")
+        else:
+            ok = ok and r in (f"QVariable({ps_}, {pn_}.get({ps_}))", f"QVariable({ps_}, {pn_}.get({ps_}, None))")
+            seen |= {"present", "absent"}
+    rep.check(ok and seen == {"present", "absent"}, "ASSIGN", vp.short, "variable lookup", "current namespace value", "a variable reference does not read the namespace (value of the name if it is bound, None otherwise)", vp.loc())
     vi = prog.func("QVariable.interpret")
-    rep.check(norm(vi.node.body[-1]) == "return self.value", "ASSIGN", vi.short, "variable value", "the bound value", "a variable does not evaluate to its bound value", vi.loc())
+    rep.check(_ret_texts(vi) == {"self.value"}, "ASSIGN", vi.short, "variable value", "the bound value", "a variable does not evaluate to its bound value", vi.loc())
     gr = prog.func("get_return")
-    rep.check(norm(gr.node.body[-1]) == "return namespace['RETURN']", "ASSIGN", gr.short, "result", "namespace['RETURN']", "the query result is not the RETURN variable", gr.loc())
-    rets = [r for r in walk_own(fi.node) if isinstance(r, ast.Return)]
-    d = single_def(fi, norm(rets[0].value)) if rets and isinstance(rets[0].value, ast.Name) else (rets[0].value if rets else None)
-    rep.check(d is not None and norm(d) == "get_return(namespace)", "ASSIGN", fi.short, "returns get_return(namespace)", "", "query() does not return the RETURN variable", fi.loc())
+    rep.check(_ret_texts(gr) == {f"{gr.params[0]}['RETURN']"}, "ASSIGN", gr.short, "result", "namespace['RETURN']", "the query result is not the RETURN variable", gr.loc())
+    rep.check(_ret_texts(fi, stop=("namespace",)) == {"get_return(namespace)"}, "ASSIGN", fi.short, "returns get_return(namespace)", "", "query() does not return the RETURN variable", fi.loc())
     # the assignment statement splitter
     pf = prog.func("parse", "aw_query.query2")
-    t = norm(pf.node)
-    ok = "separator_i = line.find('=')" in t and "var_str = line[:separator_i]" in t and "val_str = line[separator_i + 1:]" in t
-    rep.check(ok, "ASSIGN", pf.short, "split at the first '='", "line[:i] / line[i+1:]", "a statement is not split into variable and value at its first '='", pf.loc())
+    ln = pf.params[0]
+    scans = [c for c in walk_own(pf.node) if isinstance(c, ast.Call) and norm(c.func) == "_parse_token" and c.args]
+    scans.sort(key=lambda c: c.lineno)
+    firsts = {f"{ln}[:{ln}.find('=')]", f"{ln}.partition('=')[0]", f"{ln}.split('=', 1)[0]", f"{ln}[:{ln}.index('=')]"}
+    seconds = {f"{ln}[{ln}.find('=') + 1:]", f"{ln}.partition('=')[2]", f"{ln}.split('=', 1)[1]", f"{ln}[{ln}.index('=') + 1:]"}
+    got = [norm(sym_value(pf, c.args[0])) for c in scans]
+    ok = len(scans) == 2 and got[0] in firsts and got[1] in seconds
+    rep.check(ok, "ASSIGN", pf.short, "split at the first '='", "line[:i] / line[i+1:]", f"a statement is not split into variable and value at its first '=' (the two scanned texts are {got})", pf.loc())
 
 
 def _inj_cond(test, fns):
@@ -564,6 +603,14 @@ VARIANTS = [
     ("B token class missing from qtypes", Q2, "qtypes: Sequence[Type[QToken]] = [QString, QInteger, QFunction, QDict, QList, QVariable]", "qtypes: Sequence[Type[QToken]] = [QString, QInteger, QFunction, QList, QVariable]", "REGISTRY"),
     ("B variable tried before function", Q2, "qtypes: Sequence[Type[QToken]] = [QString, QInteger, QFunction, QDict, QList, QVariable]", "qtypes: Sequence[Type[QToken]] = [QString, QInteger, QVariable, QFunction, QDict, QList]", "REGISTRY"),
     ("B strip hoisted out of the dict entry loop", Q2, "        entries_str = string[1:-1]\n        d: Dict[str, QToken] = {}\n        while len(entries_str) > 0:\n            entries_str = entries_str.strip()\n", "        entries_str = string[1:-1].strip()\n        d: Dict[str, QToken] = {}\n        while len(entries_str) > 0:\n", "SPACING"),
+    ("B statement split at the last '='", Q2, "    separator_i = line.find(\"=\")", "    separator_i = line.rfind(\"=\")", "ASSIGN"),
+    ("B string literal keeps its closing quote", Q2, "        string = string[1:-1]\n        return QString(string)", "        string = string[1:]\n        return QString(string)", "LOOPS"),
+    ("B variables always parse to None", Q2, "        if string in namespace:\n            val = namespace[string]\n        return QVariable(string, val)", "        return QVariable(string, val)", "ASSIGN"),
+    ("B assignment binds the unevaluated token", Q2, "    namespace[var.name] = val.interpret(datastore, namespace)", "    namespace[var.name] = val", "ASSIGN"),
+    ("B integer literal parsed as float", Q2, "        return QInteger(int(string))", "        return QInteger(float(string))", "LOOPS"),
+    ("OK statement split with partition", Q2, "    separator_i = line.find(\"=\")\n    var_str = line[:separator_i]\n    val_str = line[separator_i + 1 :]", "    var_str, _sep, val_str = line.partition(\"=\")", "ok"),
+    ("OK integer literal through a temporary", Q2, "        return QInteger(int(string))", "        number = int(string)\n        return QInteger(number)", "ok"),
+    ("OK variable lookup with dict.get", Q2, "        val = None\n        if string in namespace:\n            val = namespace[string]\n        return QVariable(string, val)", "        return QVariable(string, namespace.get(string))", "ok"),
     ("B statement loop stops at RETURN", Q2, "            interpret(var, val, namespace, datastore)\n", "            interpret(var, val, namespace, datastore)\n            if var.name == \"RETURN\":\n                break\n", "ASSIGN"),
     ("B non-empty statements starting with # skipped", Q2, "        if statement:\n", "        if statement and not statement.startswith(\"#\"):\n", "ASSIGN"),
     ("B union_no_overlap arguments swapped", QF, "    return union_no_overlap(events1, events2)", "    return union_no_overlap(events2, events1)", "REGISTRY"),
